@@ -645,10 +645,30 @@ func (cmd *Command) printDiagnostics(cs []*lint.Analyzer, diagnostics []diagnost
 			if di.Message != dj.Message {
 				return di.Message < dj.Message
 			}
+			// Order by all remaining fields of the descriptor before
+			// ordering by build name, so that diagnostics that only
+			// differ in build name end up next to each other.
+			ei := di.End
+			ej := dj.End
+			if ei.Filename != ej.Filename {
+				return ei.Filename < ej.Filename
+			}
+			if ei.Line != ej.Line {
+				return ei.Line < ej.Line
+			}
+			if ei.Column != ej.Column {
+				return ei.Column < ej.Column
+			}
+			if di.Category != dj.Category {
+				return di.Category < dj.Category
+			}
 			if di.BuildName != dj.BuildName {
 				return di.BuildName < dj.BuildName
 			}
-			return di.Category < dj.Category
+			if di.Severity != dj.Severity {
+				return di.Severity < dj.Severity
+			}
+			return di.MergeIf < dj.MergeIf
 		})
 
 		filtered := []diagnostic{
